@@ -13,7 +13,7 @@ struct TL : Listener {
         if (o.ioMark && (op.code == "save" || op.code == "reload" || op.code == "load")) o.ioMark(op.code, false);
         std::string st = snapText(takeSnap(in.o()), true);
         char buf[64]; snprintf(buf, sizeof buf, "%016llx", static_cast<unsigned long long>(fnv(st)));
-        out += std::to_string(i) + " " + op.code + " " + (oc.skipped ? "skipped" : (oc.threw ? "threw:" + oc.cls : "ok")) + " " + buf + "\n";
+        out += std::to_string(i) + " " + op.code + " " + (oc.skipped ? "skipped" : (oc.threw ? "threw:" + oc.cls : "ok")) + (op.code == "dimq" ? " " + oc.note : std::string()) + " " + buf + "\n";
         if (o.fullSnapshots && i % 4 == 0) out += st;
     }
 };
